@@ -352,13 +352,21 @@ LEXER_SPECS = {
                  'r is Some ==> lex_lt(*final(self), *old(self))',
                  # C11: both bracket styles leave the lexer in the same state
                  '/*C11.lexer.after_open*/ r is Some ==> final(self).after_open == (r->Some_0 is Open || r->Some_0 is CurlyOpen)',
-                 '/*C11.lexer.after_open*/ r is Some ==> final(self).after_operator == (r->Some_0 is Operator)'],
+                 '/*C11.lexer.after_open*/ r is Some ==> final(self).after_operator == (r->Some_0 is Operator)',
+                 # C02: a token that starts at a quote character is a text literal, whatever it spells; a comma is a Comma token
+                 '/*C02.lexer.quoted*/ lex_is_quote(lex_cur(*old(self))) ==> (r is Some && r->Some_0 is String)',
+                 "/*C02.lexer.quoted*/ lex_cur(*old(self)) == Some(',') ==> (r is Some && r->Some_0 is Comma)"],
         decreases='m1(*old(self)), m2(*old(self))',
         rewrites=[('input_part.chars().nth(self.char_index as usize)', 'verif_char_at(input_part, self.char_index as usize)')],
         loops={0: dict(invariant=['lex_wf(*self)', 'self.input == old(self).input',
                                   '!(mode is Undefined) ==> lex_lt(*self, *old(self))',
                                   '(mode is Undefined) ==> (lex_lt(*self, *old(self)) || (m1(*self) == m1(*old(self)) && m2(*self) == m2(*old(self))))',
-                                  '/*C11.lexer.after_open*/ !(mode is Undefined) ==> self.after_open == (mode is Open)'],
+                                  '/*C11.lexer.after_open*/ !(mode is Undefined) ==> self.after_open == (mode is Open)',
+                                  '/*C02.lexer.quoted*/ lex_is_quote(lex_cur(*old(self))) ==> ((mode is Undefined && self.input_index == old(self).input_index && self.char_index == old(self).char_index) '
+                                  '|| mode is SingleQuotedString || mode is DoubleQuotedString || mode is BackticksQuotedString)',
+                                  "/*C02.lexer.quoted*/ lex_cur(*old(self)) == Some(',') ==> ((mode is Undefined && self.input_index == old(self).input_index && self.char_index == old(self).char_index) || mode is Comma)"],
+                       # the loop is left in the Undefined mode only when the input is exhausted
+                       ensures=['(mode is Undefined) ==> self.input_index >= self.input@.len()'],
                        decreases='m1(*self), m2(*self)')}),
     'Lexer::is_arithmetic_op_char': dict(ret='r'),
     'Lexer::is_op_char': dict(ret='r'),
@@ -371,6 +379,11 @@ spec fn lex_wf(l: Lexer) -> bool {
     && (l.input_index < l.input@.len() ==> l.char_index <= l.input@[l.input_index as int]@.len())
     && (forall|i: int| 0 <= i < l.input@.len() ==> (#[trigger] l.input@[i])@.len() < isize::MAX)
 }
+// the character under the cursor (None at a part boundary / past the end)
+spec fn lex_cur(l: Lexer) -> Option<char> {
+    if l.input_index < l.input@.len() && 0 <= l.char_index < l.input@[l.input_index as int]@.len() { Some(l.input@[l.input_index as int]@[l.char_index as int]) } else { None }
+}
+spec fn lex_is_quote(c: Option<char>) -> bool { c == Some('\\'') || c == Some('"') || c == Some('`') }
 spec fn m1(l: Lexer) -> int { l.input@.len() - l.input_index }
 spec fn m2(l: Lexer) -> int { if l.input_index < l.input@.len() { part_len(l, l.input_index as int) - l.char_index } else { 0 } }
 spec fn lex_lt(a: Lexer, b: Lexer) -> bool { m1(a) < m1(b) || (m1(a) == m1(b) && m2(a) < m2(b)) }
